@@ -160,7 +160,8 @@ def run_case(case):
     invalid = val_of("r") < 0
     e1 = None if invalid else Sphere(n=val_of("n"), r=val_of("r"), center=(val_of("x"), val_of("y"), val_of("z")))
     if case["two"]:
-        e2 = Sphere(n=1.6 * nmed / 1.33, r=val_of("r2"), center=(val_of("x2"), 0.7, 6.0))
+        invalid = invalid or val_of("r2") < 0
+        e2 = None if val_of("r2") < 0 else Sphere(n=1.6 * nmed / 1.33, r=val_of("r2"), center=(val_of("x2"), 0.7, 6.0))
     alpha_v = val_of("alpha") if case["model"] == "alpha" else (0.85 if case["model"] == "alpha_fixed" else 1.0)
     nmed_v = val_of("nmed") if case["optics_src"] == "mixed" else nmed
     # ---- data
